@@ -355,6 +355,17 @@ def run_datasim(ctx, sub, args, timeout=1500):
     shutil.rmtree(d, ignore_errors=True)
     os.makedirs(d)
     cmd = "%s %s -out %s" % (os.path.join(vlib.BIN, BINNAME), args, d)
+    if sub.startswith("sweep"):
+        # the sweep runs beside the apply loop's write batch: a hang (e.g. two open write batches on an engine with a
+        # writer lock) must end the run, and the missing outputs are then reported as failures of the check
+        rc, out, dt = sh("timeout -k 5 90 " + cmd, cwd=d, timeout=120)
+        if rc != 0:
+            log("HARNESS DID NOT FINISH (%s): rc=%s; its missing outputs count as failures" % (sub, rc))
+            if not os.path.exists(os.path.join(d, "impl.out")):
+                open(os.path.join(d, "impl.out"), "w").close()
+            if not os.path.exists(os.path.join(d, "cases.tsv")):
+                raise SystemExit(2)
+        return d
     rc, out, dt = sh(cmd, cwd=d, timeout=timeout)
     if rc != 0:
         log("HARNESS RUN FAILED (%s):\n%s" % (cmd, out[-3000:]))
@@ -598,7 +609,7 @@ def shrunk_case(ctx, r, cid, oracle):
     """the sequence up to cid, shrunk while oracle still fails; returns the case lines"""
     seq = cid.split(".")[0]
     lines = seq_lines(r["order"], r["cases"], seq, upto=cid)
-    if seq.startswith("b"):
+    if seq.startswith("b") or seq.startswith("s"):
         # big-collection sequences: a handful of lines, the commands carry thousands of members; keep them as they are
         return [l if len(l) < 4000 else l[:4000] + "...(%d characters)" % len(l) for l in lines]
     try:
